@@ -259,7 +259,7 @@ def main(argv=None):
                   "hidden list entries carry id 0 (as the Go bindings produce them)"]
     chk.trusted = ["group layer specification (C05-C08, C01)", "z3"]
     # lower layers whose specifications this check relies on: their obligations are part of this check's claim (framework.Check.include)
-    for dep in ['C06', 'C02', 'C03', 'C04', 'C05', 'C07', 'C01', 'C08', 'C10', 'C19']:
+    for dep in ['C06', 'C02', 'C03', 'C04', 'C05', 'C07', 'C01', 'C08', 'C10', 'C19', 'C20']:
         chk.include(dep)
     # the statements start from an arbitrary well-formed key; that the key-producing operations return exactly such keys (the induction step
     # over delegation histories) is C11's claim, and part of this one
